@@ -79,6 +79,18 @@ def build(d):
       reg.set_style(S.DisplayAlign, sp.DisplayAlignType[r["da"]])
     if "wm" in r:
       reg.set_style(S.WritingMode, sp.WritingModeType[r["wm"]])
+    for st in r.get("anim", []):
+      # the region moves / changes its alignment for a while
+      if st["p"] == "origin":
+        val = sp.CoordinateType(x=sp.LengthType(fr(st["v"][0]), sp.LengthType.Units.pct), y=sp.LengthType(fr(st["v"][1]), sp.LengthType.Units.pct))
+        prop = S.Origin
+      elif st["p"] == "extent":
+        val = sp.ExtentType(height=sp.LengthType(fr(st["v"][1]), sp.LengthType.Units.pct), width=sp.LengthType(fr(st["v"][0]), sp.LengthType.Units.pct))
+        prop = S.Extent
+      else:
+        val = sp.DisplayAlignType[st["v"]]
+        prop = S.DisplayAlign
+      reg.add_animation_step(m.DiscreteAnimationStep(prop, fr(st.get("b")), fr(st.get("e")), val))
     doc.put_region(reg)
     regions.append(reg)
 
@@ -306,6 +318,17 @@ def random_doc(rng, rich=True):
     if rng.random() < 0.25:
       b, e = _times(rng, dens, 6)
       r["b"], r["e"] = tstr(b), tstr(e)
+    if rng.random() < 0.2:
+      # a region whose position, size or alignment changes for part of the time
+      b, e = _times(rng, dens, 6)
+      kind = rng.choice(["origin", "extent", "da"])
+      if kind == "origin":
+        v = [tstr(Fraction(rng.randint(0, 40), 2)), tstr(Fraction(rng.randint(0, 280), 4))]
+      elif kind == "extent":
+        v = [tstr(Fraction(rng.randint(40, 120), 2)), tstr(Fraction(rng.randint(20, 120), 4))]
+      else:
+        v = rng.choice(["before", "center", "after"])
+      r["anim"] = [{"p": kind, "b": tstr(b), "e": tstr(e), "v": v}]
     regions.append(r)
   body = [_rand_div(rng, nreg, dens, rich, 0, False) for _ in range(rng.choice([1, 1, 2, 3]))]
   if rng.random() < 0.07:
@@ -343,10 +366,13 @@ def random_doc(rng, rich=True):
       regions[reg].pop("b", None)          # the region of these paragraphs is always active
       regions[reg].pop("e", None)
     blank = {"k": "p", "reg": reg, "sp": "p", "st": {}, "b": tstr(40), "e": tstr(42),
-             "kids": [{"k": "span", "sp": "p", "st": rng.choice([{"fw": "bold"}, {"td": "u"}, {"col": "red"}, {"fs": "italic"}]),
+             "kids": [{"k": "span", "sp": "p", "st": rng.choice([{"fw": "bold"}, {"td": "u"}, {"col": "red"}, {"fs": "italic"}, {"col": "lime"}, {"bg": "teal"},
+                                                                 {"col": "yellow", "bg": "blue"}]),
                        "kids": [{"k": "t", "s": rng.choice([" ", "  ", " \t "])}]}]}
+    # (the cues after it often use the very style that the unwritten paragraph introduced)
+    bst = blank["kids"][0]["st"]
     after = [{"k": "p", "reg": reg, "sp": "", "st": {}, "b": tstr(43 + 2 * k), "e": tstr(44 + 2 * k),
-              "kids": [{"k": "span", "sp": "", "st": {}, "kids": [{"k": "t", "s": "after%d" % k}]}]} for k in range(2)]
+              "kids": [{"k": "span", "sp": "", "st": dict(bst) if rng.random() < 0.6 else {}, "kids": [{"k": "t", "s": "after%d" % k}]}]} for k in range(2)]
     body.append({"k": "div", "reg": -1, "kids": [blank] + after})
   return {"regions": regions, "body": body}
 
